@@ -432,13 +432,27 @@ def install_message():
 _unp_installed = False
 
 
+class StepBudgetExhausted(BaseException):
+    """Raised from inside a monitored primitive when a decode has used up its step budget: the only way to get
+    control back from a decode that would never return.  Not an Exception, so that library code does not swallow it."""
+
+
 class Steps:
-    """Logical work counter: primitive calls + from_unpacker calls since reset()."""
+    """Logical work counter: primitive calls + from_unpacker calls since reset().  With a limit set, the call that
+    exceeds it does not return but raises StepBudgetExhausted."""
     n = 0
+    limit = None
 
     @classmethod
-    def reset(cls):
+    def reset(cls, limit=None):
         cls.n = 0
+        cls.limit = limit
+
+    @classmethod
+    def tick(cls):
+        cls.n += 1
+        if cls.limit is not None and cls.n > cls.limit:
+            raise StepBudgetExhausted(f"{cls.n} steps")     # and so does every further step until reset()
 
 
 def install_unpacker():
@@ -451,7 +465,7 @@ def install_unpacker():
 
     def make(name, orig):
         def prim(self, *a, **k):
-            Steps.n += 1
+            Steps.tick()
             if not MON.enabled:
                 return orig(self, *a, **k)
             try:
@@ -487,7 +501,7 @@ def install_unpacker():
     inner = Avp.__dict__["from_unpacker"].__func__
 
     def from_unpacker(cls, unpacker):
-        Steps.n += 1
+        Steps.tick()
         if not MON.enabled:
             return inner(cls, unpacker)
         try:
